@@ -25,7 +25,8 @@ COQFAIL = {"retry": "FRetry", "409": "F409", "401": "F401", "410": "F410", "othe
 
 V_NAMES = {101: "V_DUP_ACK", 102: "V_FOREIGN", 103: "V_LOST", 201: "V_DEAD_RESENT", 202: "V_ATTEMPTS",
            301: "V_VALID", 302: "V_TERMINAL_REPLY", 303: "V_TERMINAL_CONNECT", 304: "V_CONNECTED_UNSOUND",
-           305: "V_NO_RETRY", 306: "V_NO_RESTART", 401: "V_PARAMS", 501: "V_HUNG", 502: "V_FINAL_DUP"}
+           305: "V_NO_RETRY", 306: "V_NO_RESTART", 401: "V_PARAMS", 501: "V_HUNG", 502: "V_FINAL_DUP",
+           601: "V_CAPACITY"}
 
 
 class HistGen:
@@ -376,6 +377,28 @@ class HistGen:
         self.exit(rng.choice(["ok", "retry", "transport", "410"]), outs)
         # operations after the exit must have no effect
         self.ops.append({"op": "appinfo", "key": 1, "dt": False, "id": None})
+
+    def p_capacity(self):
+        """C05: small negotiated limits, several periods per category with more offers than the limit,
+        per-type and combined harvests, accepting collector"""
+        rng = self.rng
+        caps = {c: rng.choice([1, 2, 3, 5]) for c in EVENT_CATS}
+        if rng.random() < 0.3:
+            caps[rng.choice(EVENT_CATS)] = 0
+        run = self.connect(1, dt=False, caps=caps)
+        for _round in range(rng.randint(2, 4)):
+            for _ in range(rng.randint(3, 8)):
+                self.txn(run, rich=1.0)
+            r = rng.random()
+            if r < 0.5:
+                for c in rng.sample(EVENT_CATS, rng.randint(1, 5)):
+                    self.tick(ah=0, ty=BITS[c])
+            elif r < 0.8:
+                self.tick(ah=0, ty=DEFAULT | BITS[rng.choice(EVENT_CATS)])
+            else:
+                self.tick(ah=0, ty=ALL)
+            self.drain(14, {"ok": 1})
+        self.exit("ok")
 
     def p_applimit(self):
         """C05: the 251st application is refused"""
